@@ -133,7 +133,8 @@ class _Contour:
 
 
 OPS = ["pdf", "cdf", "draw_sample", "marginal_pdf", "marginal_cdf", "marginal_icdf", "iform", "isorm", "hdc",
-       "direct_sampling", "and", "or", "design_conditions", "plot", "plot_swap", "save", "ew_pdf", "cond_eval"]
+       "direct_sampling", "and", "or", "design_conditions", "design_steps", "plot", "plot_swap", "save", "ew_pdf",
+       "cond_eval"]
 
 
 HEAVY = ("hdc", "direct_sampling", "and", "or", "design_conditions")
@@ -214,6 +215,10 @@ def h_frame(h):
                     return None
             if op == "design_conditions":
                 return shim.mod("utils").calculate_design_conditions(_Contour(inputs["poly"]), steps=[2.9, 3.4])
+            if op == "design_steps":
+                # the caller's own abscissae (a float64 ndarray: np.asarray hands it through without a copy)
+                return shim.mod("utils").calculate_design_conditions(_Contour(inputs["cpoly"]), steps=inputs["steps"],
+                                                                     swap_axis=h.cfg.get("swap", False))
             if op in ("plot", "plot_swap"):
                 return shim.mod("plotting").plot_2D_contour(_Contour(inputs["poly"]), sample=inputs["s"],
                                                             design_conditions=inputs["dc"], swap_axis=(op == "plot_swap"),
@@ -264,6 +269,18 @@ def h_frame(h):
             inputs["poly"] = a.view(sym.SymArray) if h.sym else a
         else:
             arr("poly", (4, 2), 0.5, 6.0)
+    if op == "design_steps":
+        # concrete pentagon (in both orientations), two symbolic abscissae anywhere from left of it to right of it -
+        # in particular on and arbitrarily close to its leftmost / rightmost point
+        inputs["cpoly"] = np.array([[2.0, 1.0], [4.0, 1.5], [4.5, 4.0], [3.0, 5.0], [1.5, 3.0]])
+        ax = 1 if h.cfg.get("swap") else 0
+        lo_, hi_ = inputs["cpoly"][:, ax].min(), inputs["cpoly"][:, ax].max()
+        arr("steps", (2,), lo_ - 0.25, hi_ + 0.25)
+        for st_ in inputs["steps"]:
+            # general position as in C17: a probe line through a vertex makes the routine report that vertex twice and
+            # calculate_design_conditions then fails its own `assert len(x) <= 2` (outside C17's and this claim)
+            for v in sorted(set(inputs["cpoly"][:, ax])):
+                real_h.assume(sym.Or(st_ >= v + 3e-6, st_ <= v - 3e-6) if h.sym else abs(st_ - v) >= 2e-6)
     if op in ("plot", "plot_swap"):
         arr("dc", (2, 2), 0.5, 6.0)
     if op == "ew_pdf":
@@ -408,13 +425,16 @@ def obligations(tier):
     for st in (structures(2) + (structures(3)[3:5] if tier == "quick" else structures(3))):
         for rot in rots:
             for op in OPS:
-                if op in ("direct_sampling", "and", "or", "design_conditions", "plot", "plot_swap", "save", "ew_pdf") and (len(st) != 2 or rot != rots[0] or st != structures(2)[1]):
+                if op in ("direct_sampling", "and", "or", "design_conditions", "design_steps", "plot", "plot_swap", "save", "ew_pdf") and (len(st) != 2 or rot != rots[0] or st != structures(2)[1]):
                     continue
                 if op == "hdc" and (len(st) > 2 and rot != 0):
                     continue
                 if op == "cond_eval" and st[-1] is None:
                     continue
                 yield ("frame", h_frame, {"struct": skey(st), "rot": rot, "op": op}, {"validate": True, "max_paths": 5000})
+                if op == "design_steps":
+                    yield ("frame", h_frame, {"struct": skey(st), "rot": rot, "op": op, "swap": True},
+                           {"validate": True, "max_paths": 5000})
                 if op in ("direct_sampling", "and", "or"):
                     yield ("frame", h_frame, {"struct": skey(st), "rot": rot, "op": op, "layout": "F"},
                            {"validate": True, "max_paths": 5000})
